@@ -1,12 +1,13 @@
 """C15 - length accounting exact across 2^29 / 2^32 totals (slices of the context-layer induction step)."""
 from common import Evidence, Verdict
-import ctxlayer
+import ctxlayer, basectx
 
 
 def run(tier):
     ev, vd = Evidence("C15", tier), Verdict("C15", tier)
     sets = [()] if tier == "quick" else [(), ("-DMIN_TOTAL=(1ull<<29)",), ("-DMIN_TOTAL=(1ull<<32)",), ("-DMIN_TOTAL=((1ull<<32)+(1ull<<29))",)]
     ctxlayer.run("C15", tier, [1, 4, 5], ev, vd, extra_sets=sets)
+    basectx.run("C15", tier, ev, vd, extra_sets=[()] if tier == "quick" else [(), ("-DMIN_TOTAL=(1ull<<32)",)])
     ev.assume("the running total is a free 64-bit value below 2^60 and each submit length a free 32-bit value, so every crossing of 2^29, 2^32, 2^32+2^29 at every residue is inside the quantified space; the thorough tier repeats the step with the total explicitly beyond each threshold",
               "digest correctness for such totals additionally needs K (kernels) and M (managers) for the block counts involved: block count per job < 2^26 is asserted at every manager call")
     return ev, vd
